@@ -1,10 +1,10 @@
 SPECIFICATION Spec
 CONSTANTS
-  Part = "builder"
+  Parts = {"builder", "wallet"}
   Seeds = {"s1"}
   Comps = {"c0", "c1"}
   HardComps = {}
-  Amts = {"a0"}
+  Amts = {"a1", "amax"}
   MaxDepth = 4
   VKMaxDepth = 0
   MaxOuts = 1
@@ -24,5 +24,5 @@ CONSTANTS
   CbStride = 4
   ShapeStride = 37
   PairStride = 1
-  WalPicks = 1
-INVARIANTS TypeOK BuilderBalances ExchangeOK CoinbaseOK EmitShape
+  WalPicks = 4
+INVARIANTS TypeOK BuilderBalances ExchangeOK CoinbaseOK WalletsOK EmitShape EmitWal
